@@ -354,3 +354,91 @@ def const_eval(body, op, depth=0):
         except Exception:
             return None
     return None
+
+
+# ---------------------------------------------------------------------------------------------
+# canonical description of where a value comes from (used by sibling-agreement rules)
+
+def _arg_desc(body, l):
+    ty = strip_lifetimes(body.local_ty(l))
+    same = [i for i in range(1, body.argc + 1) if strip_lifetimes(body.local_ty(i)) == ty]
+    if len(same) > 1:
+        return "arg<%s>#%d" % (ty, same.index(l))
+    return "arg<%s>" % ty
+
+
+def strip_lifetimes(ty):
+    import re
+    return re.sub(r"'[a-z_]+ ?", "", ty)
+
+
+def describe(body, op, depth=0):
+    """Canonical, name-independent description of an operand's origin."""
+    if depth > 12:
+        return "..."
+    k = op_const(op) if isinstance(op, dict) and isinstance(op.get("k"), dict) and "ty" in op.get("k", {}) else None
+    if k is not None:
+        v = const_int(k)
+        if v is not None:
+            return "K%d" % v
+        if "fn" in k:
+            return "fn:" + k["fn"]
+        return "const<%s>" % k["ty"]
+    p = op_place(op) if ("c" in op or "m" in op) else (op if "l" in op else None)
+    if p is None:
+        return "?"
+    base = _desc_local(body, p["l"], depth)
+    for e in p["p"]:
+        if e == "*":
+            continue
+        if isinstance(e, dict) and "f" in e:
+            base += "." + str(e.get("n", e["f"]))
+        elif isinstance(e, dict) and "i" in e:
+            base += "[" + _desc_local(body, e["i"], depth + 1) + "]"
+        elif isinstance(e, dict) and "dc" in e:
+            base += " as " + str(e.get("n"))
+        elif isinstance(e, dict) and "ci" in e:
+            base += "[%s%d]" % ("-" if e.get("fe") else "", e["ci"])
+        elif isinstance(e, dict) and "sub" in e:
+            base += "[%d..%s%d]" % (e["sub"][0], "-" if e.get("fe") else "", e["sub"][1])
+    return base
+
+
+def _desc_local(body, l, depth):
+    if 1 <= l <= body.argc:
+        ds = [d for d in body.defs(l) if d[2] != "arg"]
+        if not ds:
+            return _arg_desc(body, l)
+    ds = body.defs(l)
+    if len(ds) != 1:
+        if any(d[2] == "arg" for d in ds):
+            return _arg_desc(body, l) + "~"
+        nm = body.local_name(l)
+        return "var(%s)" % (nm or "_%d" % l) if ds else "undef"
+    bb, idx, kind, payload = ds[0]
+    if kind == "arg":
+        return _arg_desc(body, l)
+    if kind == "call":
+        from .common import strip_generics
+        n = strip_generics(payload["callee"].get("def", "?"))
+        return "%s(%s)" % (n.split("::")[-1] if not n.startswith("preflate_rs") else n.replace("preflate_rs::", ""),
+                           ", ".join(describe(body, a, depth + 1) for a in payload["args"]))
+    if kind != "assign":
+        return "partial"
+    r = payload
+    k = r["k"]
+    if k == "use":
+        return describe(body, r["op"], depth + 1)
+    if k == "cast":
+        return describe(body, r["op"], depth + 1)
+    if k in ("ref", "rawptr"):
+        return describe(body, r["place"], depth + 1)
+    if k == "discr":
+        return "discr(%s)" % describe(body, r["place"], depth + 1)
+    if k == "binop":
+        return "%s(%s, %s)" % (r["op"].replace("WithOverflow", ""), describe(body, r["l"], depth + 1), describe(body, r["r"], depth + 1))
+    if k == "unop":
+        return "%s(%s)" % (r["op"], describe(body, r["a"], depth + 1))
+    if k == "agg":
+        return "%s{%s}" % (r.get("vname") or r.get("ak"), ", ".join(describe(body, o, depth + 1) for o in r["ops"]))
+    return k
